@@ -5,7 +5,6 @@ package kernel
 import (
 	"encoding/hex"
 	"fmt"
-	"os"
 	"sort"
 	"strings"
 	"sync"
@@ -24,12 +23,13 @@ import (
 // transaction owned by a still-active proposal is not re-queued.
 //
 // Exhaustive enumeration (E2, "exploration"): every configuration of the real
-// node's own Chain {0..2 (thorough 0..3) CosiAggregators over 4 real
-// transactions, every overlap pattern the announcement guard admits, every
-// age / completion combination} x every ledger/cache state of the referenced
-// transactions x every retirement event (thorough: every sequence of two).
-// After every event the real cache queue is drained and compared with the
-// statement.
+// node's own Chain {0..2 CosiAggregators over 4 real transactions, every
+// overlap pattern the announcement guard admits, every age / completion
+// combination} x every ledger/cache state of the referenced transactions x
+// every retirement or deferral event. Thorough adds a wider state alphabet, a
+// fourth age (two aged proposals sharing a transaction), exactly three
+// proposals, and every second event after a partial retirement. After every
+// event the real cache queue is drained and compared with the statement.
 
 const c24NTx = 4
 
@@ -704,14 +704,6 @@ func c24Configs(t *c24Tier) [][]c24Agg {
 }
 
 func c24Tiers(c *verifmc.Check) []*c24Tier {
-	if v := os.Getenv("C24_DEBUG_TIER"); v != "" {
-		t := &c24Tier{name: "debug", ages: []uint64{22, 11, 10, 1}, ageName: []string{"2gap+2", "gap+1", "gap", "1ns"}, comps: [][2]int{{-1, -1}, {0, -1}, {0, 0}, {2, 2}}}
-		var na, nc, ns int
-		fmt.Sscanf(v, "%d,%d,%d,%d,%d,%d", &ns, &t.minAggs, &t.maxAggs, &na, &nc, &t.depth2)
-		t.states = []int{c24Uc, c24Un, c24Fc, c24Us, c24Ub, c24Fn}[:ns]
-		t.ages, t.ageName, t.comps = t.ages[4-na:], t.ageName[4-na:], t.comps[:nc]
-		return []*c24Tier{t}
-	}
 	ages3, names3 := []uint64{11, 10, 1}, []string{"gap+1", "gap", "1ns"}
 	ages4, names4 := []uint64{22, 11, 10, 1}, []string{"2gap+2", "gap+1", "gap", "1ns"}
 	comps3 := [][2]int{{-1, -1}, {0, -1}, {0, 0}}
@@ -797,7 +789,7 @@ func TestMC_C24(t *testing.T) {
 	c.Set("resets_with_owned_excluded_and_others_requeued", st.resetExcluded.Load())
 	c.Set("overflow_requeues", st.overflowQueued.Load())
 	c.Set("duplicate_guard_defers_with_requeue", st.dupGuarded.Load())
-	if complete && os.Getenv("C24_DEBUG_VECTORS") == "" {
+	if complete {
 		c.Require(st.single.Load() == st.planned.Load(), "planned %d single-event cases, executed %d", st.planned.Load(), st.single.Load())
 		c.Require(st.sharedLive.Load() > 0, "no proposal was retired while a later proposal owned one of its transactions")
 		c.Require(st.orderSensitive.Load() > 0, "no retired proposal listed a finalized transaction before a re-queued one")
@@ -815,9 +807,6 @@ func c24RunPart(c *verifmc.Check, tier *c24Tier, stats *c24Stats) bool {
 		radices[i] = len(tier.states)
 	}
 	nVec := int(verifmc.ProductSize(radices))
-	if v := os.Getenv("C24_DEBUG_VECTORS"); v != "" {
-		fmt.Sscan(v, &nVec)
-	}
 	var configs [][]c24Agg
 	{
 		in, err := c24NewInst(tier, [c24NTx]int{})
